@@ -589,18 +589,39 @@ class InboundStream:
 
     def prune_chunks(self, tsn: int) -> int:
         """
-        Prune chunks up to the given TSN.
+        Prune the fragments of messages which can no longer be completed
+        because one of their fragments, with a TSN up to the given TSN,
+        was skipped by the peer.
         """
-        pos = -1
+        kept: list[DataChunk] = []
         size = 0
-        for i, chunk in enumerate(self.reassembly):
-            if uint32_gte(tsn, chunk.tsn):
-                pos = i
-                size += len(chunk.user_data)
+        pos = 0
+        while pos < len(self.reassembly):
+            # find the run of fragments [pos, end) which belong together
+            end = pos + 1
+            while (
+                end < len(self.reassembly)
+                and not (self.reassembly[end - 1].flags & SCTP_DATA_LAST_FRAG)
+                and not (self.reassembly[end].flags & SCTP_DATA_FIRST_FRAG)
+                and self.reassembly[end].tsn
+                == tsn_plus_one(self.reassembly[end - 1].tsn)
+            ):
+                end += 1
+            first = self.reassembly[pos]
+            last = self.reassembly[end - 1]
+            if (
+                not (first.flags & SCTP_DATA_FIRST_FRAG)
+                and uint32_gte(tsn, tsn_minus_one(first.tsn))
+            ) or (
+                not (last.flags & SCTP_DATA_LAST_FRAG)
+                and uint32_gte(tsn, tsn_plus_one(last.tsn))
+            ):
+                size += sum(len(c.user_data) for c in self.reassembly[pos:end])
             else:
-                break
+                kept += self.reassembly[pos:end]
+            pos = end
 
-        self.reassembly = self.reassembly[pos + 1 :]
+        self.reassembly = kept
         return size
 
 
@@ -1160,6 +1181,12 @@ class RTCSctpTransport(AsyncIOEventEmitter):
         self._sack_duplicates = list(filter(is_obsolete, self._sack_duplicates))
         self._sack_misordered = set(filter(is_obsolete, self._sack_misordered))
 
+        # prune fragments of skipped messages
+        for stream_id, inbound_stream in self._inbound_streams.items():
+            self._advertised_rwnd += inbound_stream.prune_chunks(
+                chunk.cumulative_tsn
+            )
+
         # update reassembly
         for stream_id, stream_seq in chunk.streams:
             inbound_stream = self._get_inbound_stream(stream_id)
@@ -1169,12 +1196,6 @@ class RTCSctpTransport(AsyncIOEventEmitter):
             for message in inbound_stream.pop_messages():
                 self._advertised_rwnd += len(message[2])
                 await self._receive(*message)
-
-        # prune obsolete chunks
-        for stream_id, inbound_stream in self._inbound_streams.items():
-            self._advertised_rwnd += inbound_stream.prune_chunks(
-                self._last_received_tsn
-            )
 
     async def _receive_sack_chunk(self, chunk: SackChunk) -> None:
         """
